@@ -21,7 +21,7 @@ SHIFT = 1000000                                 # second sentinel assignment for
 
 X, Y = A.V('X'), A.V('Y')
 LEAVES = [X, Y, A.N(S1), A.S('a'), A.INF, A.SUP]
-SMALL = [X, A.N(S1), A.S('a')]
+SMALL = [X, A.N(S1), A.S('a'), A.SUP]
 SMALL_C = [X, A.N(3), A.N(-2), A.N(0)]
 ADV_NAMES = ['I', 'J', 'K', 'I1', 'J1', 'Z', 'Z1', 'Z2', 'V', 'V1', 'V2', 'V01', 'Q', 'R', 'Q1', 'N0', 'K1', 'R1']
 
